@@ -786,12 +786,14 @@ func matchesSentDate(msg messageInfo, dateStr string, comparison string, userID 
 		return false
 	}
 
-	// The first Date: field, unfolded
+	// The first Date: field, unfolded. RFC 5322 separates the parts of a date
+	// by folding white space, which may be a horizontal tab (a field folded
+	// with a tab); net/mail.ParseDate knows only the blank
 	values := headerFieldValues(rawMsg, "Date")
 	if len(values) == 0 {
 		return false
 	}
-	dateHeader := strings.TrimSpace(values[0])
+	dateHeader := strings.TrimSpace(strings.ReplaceAll(values[0], "\t", " "))
 
 	if dateHeader == "" {
 		return false
